@@ -125,6 +125,44 @@ impl<'de, const K: u8> Deserialize<'de> for Fixed2<K> {
     }
 }
 
+/// variant names are data: the empty name (`#[serde(rename = "")]`) is a name like any other.  The documented shape of
+/// each variant kind is compared with the shape of the same variant under an ordinary name.
+#[derive(Serialize, Deserialize, Debug, PartialEq)]
+enum Named { U, N(u8), T(u8, String), S { id: u8, tag: String } }
+#[derive(Serialize, Deserialize, Debug, PartialEq)]
+enum EmptyU { #[serde(rename = "")] U, Other }
+#[derive(Serialize, Deserialize, Debug, PartialEq)]
+enum EmptyN { #[serde(rename = "")] N(u8), Other }
+#[derive(Serialize, Deserialize, Debug, PartialEq)]
+enum EmptyT { #[serde(rename = "")] T(u8, String), Other }
+#[derive(Serialize, Deserialize, Debug, PartialEq)]
+enum EmptyS { #[serde(rename = "")] S { id: u8, tag: String }, Other }
+
+fn renamed(v: &Value, from: &str, to: &str) -> Value {
+    match v {
+        Value::Symbol(s) if &**s == from => Value::symbol(to),
+        Value::Cons(c) => match c.car() { Value::Symbol(s) if &**s == from => Value::cons(Value::symbol(to), c.cdr().clone()), _ => v.clone() },
+        _ => v.clone(),
+    }
+}
+
+fn empty_name_checks(r: &mut Rng, m: &mut Vec<String>) {
+    fn one<A: Serialize + Debug, B: Serialize + DeserializeOwned + PartialEq + Debug>(kind: &str, named: &A, name: &str, empty: &B, m: &mut Vec<String>) {
+        let (vn, ve) = match (serde_lexpr::to_value(named), serde_lexpr::to_value(empty)) { (Ok(a), Ok(b)) => (a, b), other => { m.push(format!("FAIL C14 to_value of a {} variant fails: {:?}", kind, other)); return; } };
+        let want = renamed(&vn, name, "");
+        if ve != want { m.push(format!("FAIL C14 a {} variant whose name is the empty string is written {} ; the same variant named {} is written {}", kind, ve, name, vn)); }
+        match serde_lexpr::from_value::<B>(&ve) {
+            Ok(back) if &back == empty => {}
+            other => m.push(format!("FAIL C04 a {} variant whose name is the empty string does not survive the value round trip: {} read back as {:?}", kind, ve, other)),
+        }
+    }
+    let (n, s) = (r.below(256) as u8, crate::gen::gen_string(r, 5));
+    one("unit", &Named::U, "U", &EmptyU::U, m);
+    one("newtype", &Named::N(n), "N", &EmptyN::N(n), m);
+    one("tuple", &Named::T(n, s.clone()), "T", &EmptyT::T(n, s.clone()), m);
+    one("struct", &Named::S { id: n, tag: s.clone() }, "S", &EmptyS::S { id: n, tag: s }, m);
+}
+
 fn fixed_arity_checks(r: &mut Rng, m: &mut Vec<String>) {
     fn one<const K: u8>(r: &mut Rng, m: &mut Vec<String>) {
         let how = ["deserialize_seq", "deserialize_tuple", "deserialize_tuple_struct"][K as usize];
@@ -292,6 +330,7 @@ pub fn run(seed: u64) -> Vec<String> {
     let mut m = Vec::new();
     any_checks(&mut r, &mut m);
     fixed_arity_checks(&mut r, &mut m);
+    empty_name_checks(&mut r, &mut m);
     let b = |r: &mut Rng| -> u8 { *r.pick(&[0u8, 1, 9, 10, 127, 128, 255, 42]) };
     let v4 = Ipv4Addr::new(b(&mut r), b(&mut r), b(&mut r), b(&mut r));
     let mut seg = [0u16; 8]; for s in seg.iter_mut() { *s = *r.pick(&[0u16, 1, 0xffff, 0x2001, 0xdb8, 10]); }
